@@ -338,3 +338,152 @@ pub fn classify_parse_errors(errors: &[crate::error::Error]) -> ErrKinds {
     }
     k
 }
+
+/// Equality demanded by C16 between a parsed term and the re-parse of its printed form: same
+/// constructors, de Bruijn indices, implicit flags, literals, definition count and order,
+/// hole <-> hole, variable names, and binder names except for pi parameters that do not occur in
+/// their codomain (whose names the printer is allowed to drop).
+pub fn roundtrip_equal(a: &Term, b: &Term) -> Result<(), String> {
+    use Variant as V;
+    let both = |x: &Rc<Term>, y: &Rc<Term>| roundtrip_equal(x, y);
+    match (&a.variant, &b.variant) {
+        (V::Unifier(c1, _), V::Unifier(c2, _)) => {
+            let (r1, r2) = (c1.borrow().clone(), c2.borrow().clone());
+            match (r1, r2) {
+                (None, None) => Ok(()),
+                (Some(x), Some(y)) => roundtrip_equal(&x, &y),
+                _ => Err("a hole is resolved on one side only".into()),
+            }
+        }
+        (V::Unifier(c1, s1), _) if c1.borrow().is_some() => {
+            // Follow a resolved hole on the left (elaborated terms): compare what it prints as.
+            let inner = c1.borrow().clone().unwrap();
+            let shifted = crate::dterm::D::from_gram(&inner).shift_free(0, *s1);
+            if shifted == crate::dterm::D::from_gram(b) { Ok(()) } else { Err(format!("resolved hole `{inner}` reads back as `{b}`")) }
+        }
+        (V::Type, V::Type) | (V::Integer, V::Integer) | (V::Boolean, V::Boolean) | (V::True, V::True) | (V::False, V::False) => Ok(()),
+        (V::IntegerLiteral(x), V::IntegerLiteral(y)) => if x == y { Ok(()) } else { Err(format!("literal {x} reads back as {y}")) },
+        (V::Variable(n1, i1), V::Variable(n2, i2)) => {
+            if n1 == n2 && i1 == i2 { Ok(()) } else { Err(format!("variable {n1}#{i1} reads back as {n2}#{i2}")) }
+        }
+        (V::Lambda(n1, im1, d1, b1), V::Lambda(n2, im2, d2, b2)) => {
+            if n1 != n2 || im1 != im2 {
+                return Err(format!("lambda binder {n1} (implicit={im1}) reads back as {n2} (implicit={im2})"));
+            }
+            both(d1, d2)?;
+            both(b1, b2)
+        }
+        (V::Pi(n1, im1, d1, c1), V::Pi(n2, im2, d2, c2)) => {
+            if im1 != im2 {
+                return Err(format!("pi implicit={im1} reads back as implicit={im2}"));
+            }
+            let mut fv = std::collections::BTreeSet::new();
+            crate::dterm::D::from_gram(c1).free(0, &mut fv);
+            if fv.contains(&0) && n1 != n2 {
+                return Err(format!("pi binder {n1} (used in its codomain) reads back as {n2}"));
+            }
+            both(d1, d2)?;
+            both(c1, c2)
+        }
+        (V::Application(f1, a1), V::Application(f2, a2)) => {
+            both(f1, f2)?;
+            both(a1, a2)
+        }
+        (V::Let(ds1, b1), V::Let(ds2, b2)) => {
+            if ds1.len() != ds2.len() {
+                return Err(format!("group of {} definitions reads back as {}", ds1.len(), ds2.len()));
+            }
+            for ((n1, a1, x1), (n2, a2, x2)) in ds1.iter().zip(ds2) {
+                if n1 != n2 {
+                    return Err(format!("definition {n1} reads back as {n2}"));
+                }
+                both(a1, a2)?;
+                both(x1, x2)?;
+            }
+            both(b1, b2)
+        }
+        (V::Negation(x), V::Negation(y)) => both(x, y),
+        (V::Sum(x1, y1), V::Sum(x2, y2))
+        | (V::Difference(x1, y1), V::Difference(x2, y2))
+        | (V::Product(x1, y1), V::Product(x2, y2))
+        | (V::Quotient(x1, y1), V::Quotient(x2, y2))
+        | (V::LessThan(x1, y1), V::LessThan(x2, y2))
+        | (V::LessThanOrEqualTo(x1, y1), V::LessThanOrEqualTo(x2, y2))
+        | (V::EqualTo(x1, y1), V::EqualTo(x2, y2))
+        | (V::GreaterThan(x1, y1), V::GreaterThan(x2, y2))
+        | (V::GreaterThanOrEqualTo(x1, y1), V::GreaterThanOrEqualTo(x2, y2)) => {
+            both(x1, x2)?;
+            both(y1, y2)
+        }
+        (V::If(c1, t1, e1), V::If(c2, t2, e2)) => {
+            both(c1, c2)?;
+            both(t1, t2)?;
+            both(e1, e2)
+        }
+        (x, y) => Err(format!("{} reads back as {}", vname(x), vname(y))),
+    }
+}
+
+pub fn form_name(t: &Term) -> String {
+    match &t.variant {
+        Variant::Pi(n, im, _, c) => {
+            let mut fv = std::collections::BTreeSet::new();
+            crate::dterm::D::from_gram(c).free(0, &mut fv);
+            format!("pi({}{})", if *im { "implicit," } else { "" }, if fv.contains(&0) { "dependent" } else { "non-dependent" })
+        }
+        Variant::Lambda(_, im, _, _) => format!("lambda{}", if *im { "(implicit)" } else { "" }),
+        v => vname(v).to_owned(),
+    }
+}
+
+/// (parent position, child form) pairs of a term, for coverage accounting.
+pub fn position_pairs(t: &Term, out: &mut Vec<String>) {
+    let mut add = |pos: &str, c: &Rc<Term>, out: &mut Vec<String>| {
+        out.push(format!("{pos} <- {}", form_name(c)));
+        position_pairs(c, out);
+    };
+    match &t.variant {
+        Variant::Lambda(_, im, d, b) => {
+            add(if *im { "lambda annotation (implicit)" } else { "lambda annotation" }, d, out);
+            add("lambda body", b, out);
+        }
+        Variant::Pi(..) => {
+            let name = form_name(t);
+            if let Variant::Pi(_, _, d, c) = &t.variant {
+                add(&format!("{name} domain"), d, out);
+                add(&format!("{name} codomain"), c, out);
+            }
+        }
+        Variant::Application(f, a) => {
+            add("applicand", f, out);
+            add("argument", a, out);
+        }
+        Variant::Let(defs, body) => {
+            for (_, a, d) in defs {
+                add("let annotation", a, out);
+                add("let definition", d, out);
+            }
+            add("let body", body, out);
+        }
+        Variant::Negation(a) => add("negation operand", a, out),
+        Variant::Sum(a, b)
+        | Variant::Difference(a, b)
+        | Variant::Product(a, b)
+        | Variant::Quotient(a, b)
+        | Variant::LessThan(a, b)
+        | Variant::LessThanOrEqualTo(a, b)
+        | Variant::EqualTo(a, b)
+        | Variant::GreaterThan(a, b)
+        | Variant::GreaterThanOrEqualTo(a, b) => {
+            let n = vname(&t.variant);
+            add(&format!("{n} left"), a, out);
+            add(&format!("{n} right"), b, out);
+        }
+        Variant::If(c, a, b) => {
+            add("if condition", c, out);
+            add("if then", a, out);
+            add("if else", b, out);
+        }
+        _ => {}
+    }
+}
